@@ -8,6 +8,7 @@
 #define CPPCMS_SOURCE
 #include <cppcms/mount_point.h>
 #include <booster/regex.h>
+#include <string.h>
 
 namespace cppcms {
 
@@ -169,35 +170,41 @@ mount_point::selection_type mount_point::selection() const
 
 std::pair<bool,std::string> mount_point::match(std::string const &h,std::string const &s,std::string const &p) const
 {
-	return match(h.c_str(),s.c_str(),p.c_str());
+	return match_ranges(h.data(),h.data()+h.size(),s.data(),s.data()+s.size(),p.data(),p.data()+p.size());
 }
 std::pair<bool,std::string> mount_point::match(char const *h,char const *s,char const *p) const
+{
+	return match_ranges(h,h+strlen(h),s,s+strlen(s),p,p+strlen(p));
+}
+std::pair<bool,std::string> mount_point::match_ranges(	char const *hb,char const *he,
+							char const *sb,char const *se,
+							char const *pb,char const *pe) const
 {
 	std::pair<bool,std::string> res;
 	res.first = false;
 
-	if(!host_.empty() && !booster::regex_match(h,host_))
+	if(!host_.empty() && !booster::regex_match(hb,he,host_))
 		return res;
 
 	if(selection_ == match_path_info) {
-		if(!script_name_.empty() && !booster::regex_match(s,script_name_))
+		if(!script_name_.empty() && !booster::regex_match(sb,se,script_name_))
 			return res;
 		if(path_info_.empty()) {
-			res.second = p;
+			res.second.assign(pb,pe);
 			res.first = true;
 			return res;
 		}
 		
 		if(group_ == 0) {
-			if(!booster::regex_match(p,path_info_))
+			if(!booster::regex_match(pb,pe,path_info_))
 				return res;
-			res.second=p;
+			res.second.assign(pb,pe);
 			res.first=true;
 			return res;
 		}
 		else {
 			booster::cmatch m;
-			if(!booster::regex_match(p,m,path_info_))
+			if(!booster::regex_match(pb,pe,m,path_info_))
 				return res;
 			res.second=m[group_];
 			res.first = true;
@@ -205,23 +212,23 @@ std::pair<bool,std::string> mount_point::match(char const *h,char const *s,char 
 		}
 	}
 	else {
-		if(!path_info_.empty() && !booster::regex_match(p,path_info_))
+		if(!path_info_.empty() && !booster::regex_match(pb,pe,path_info_))
 			return res;
 		if(script_name_.empty()) {
-			res.second=s;
+			res.second.assign(sb,se);
 			res.first = true;
 			return res;
 		}
 		if(group_ == 0) {
-			if(!booster::regex_match(s,script_name_))
+			if(!booster::regex_match(sb,se,script_name_))
 				return res;
-			res.second=s;
+			res.second.assign(sb,se);
 			res.first = true;
 			return res;
 		}
 		else {
 			booster::cmatch m;
-			if(!booster::regex_match(s,m,script_name_))
+			if(!booster::regex_match(sb,se,m,script_name_))
 				return res;
 			res.second=m[group_];
 			res.first = true;
